@@ -859,6 +859,50 @@ def gen_history_inputs(rng, n):
         yield inp
 
 
+def check_basis_o1(inp) -> list:
+    """the exported 1st-order basis (FCBasisSetO1): orthonormal, invariant under every operation, obeys the sum rule,
+    spans the whole admissible space"""
+    from symfc.basis_sets import FCBasisSetO1
+    cr = _cr(inp)
+    N = len(cr.numbers)
+    out = []
+    dim, W = ph.reference_dimension(cr, 1)
+    try:
+        bs = FCBasisSetO1(cr.atoms()).run()
+    except ValueError as e:
+        if "No basis vectors exist" in str(e):
+            return [] if dim == 0 else [f"order 1: 'No basis vectors exist' but the admissible space has dimension {dim}"]
+        raise
+    F = bs.full_basis_set
+    F = F.toarray() if hasattr(F, "toarray") else np.asarray(F)
+    nb = F.shape[1]
+    if nb != dim:
+        out.append(f"order 1: {nb} basis vectors, admissible space has dimension {dim}")
+    if nb == 0:
+        return out
+    e = float(np.abs(F.T @ F - np.eye(nb)).max())
+    if e > 1e-8:
+        out.append(f"order 1: expanded basis not orthonormal ({e:.2e})")
+    if dim == nb:
+        dev = float(np.abs(W @ (W.T @ F) - F).max())
+        if dev > 1e-7:
+            out.append(f"order 1: basis spans a different space than the admissible one (dev {dev:.2e})")
+    T = (F @ _rand_coef(3, nb)).reshape(N, 3)
+    sc = max(float(np.abs(T).max()), 1e-300)
+    if float(np.abs(T.sum(axis=0)).max()) / sc > 1e-7:
+        out.append("order 1: sum over atoms is not zero")
+    rots, trans = ph.spg_ops(cr)
+    for r, t in zip(rots, trans):
+        p = ph.atom_perm_of_op(cr, r, t)
+        if p is None:
+            break
+        d = float(np.abs(ph.apply_op(T, 1, p, ph.cart_rotation(cr, r)) - T).max()) / sc
+        if d > 1e-7:
+            out.append(f"order 1: not invariant under an operation (dev {d:.2e})")
+            break
+    return out
+
+
 def check_ortho_after_fit(inp) -> list:
     """C09 / C12: orthonormality of basis set, compression matrix and their product must also hold AFTER the basis
     sets have been used by a solver (solving must not modify a basis set)"""
@@ -973,6 +1017,7 @@ CHECKS = {
     "eig": check_eig,
     "history": check_history,
     "ortho_after_fit": check_ortho_after_fit,
+    "basis_o1": check_basis_o1,
     "api_invalid": check_api_invalid,
 }
 
